@@ -133,7 +133,7 @@ impl Check for C10 {
         "case = a seeded multi-replica history; every change's raw bytes are recorded in a ledger the moment it is committed (get_last_local_change). Later — after further edits, merges, forks, save/load (compressed and not) — every change every replica returns (get_changes(&[]), get_change_by_hash, get_changes_added, get_changes(have)) must be byte-identical to the ledger entry, its hash must equal the harness's own SHA-256 of the chunk, the checksum must be the hash prefix, get_changes(have) must be exactly the non-ancestors of have (have drawn from head sets of the history and random hash sets) with dependencies first. Non-trivial = a change retrieved when later changes depend on it; distinct by change hash.".into()
     }
     fn required_counters(&self) -> Vec<&'static str> {
-        vec!["changes_verified", "have_sets_checked", "changes_added_checked", "docs_after_reload"]
+        vec!["changes_verified", "have_sets_checked", "changes_added_checked", "docs_after_reload", "actor_inserted_and_removed"]
     }
     fn run_case(&self, cx: &mut Ctx, _case: u64, rng: &mut Rng) {
         let enc = enc_for(rng);
@@ -191,6 +191,19 @@ impl Check for C10 {
         let mut f = m.fork().with_actor(actor(80));
         if !verify_doc(cx, "fork of merged", &mut f, &ledger, rng, &hs, &log) {
             return;
+        }
+        {
+            // a new actor that sorts before the existing ones opens its first transaction and abandons
+            // it: an actor index is inserted and removed again; retrieval (get_changes(have) walks
+            // cached clocks) must be unaffected
+            use automerge::transaction::Transactable;
+            let mut p = m.clone().with_actor(actor(7));
+            let _ = p.put(automerge::ROOT, "abandoned", 1);
+            p.rollback();
+            cx.count("actor_inserted_and_removed");
+            if !verify_doc(cx, "merged after an abandoned first transaction of a new first-sorting actor", &mut p, &ledger, rng, &hs, &log) {
+                return;
+            }
         }
         for (name, bytes) in [("load(save)", m.save()), ("load(save_nocompress)", m.save_nocompress())] {
             match load_enc(&bytes, enc) {
